@@ -75,12 +75,17 @@ def needs_finding_14(value):
     return any(ord(c) > 0xFF for c in value)
 
 
+def pre_import():
+    # before ombott is imported: pickle.loads / pickle.load themselves record their argument
+    PickleSpy.install_global()
+
+
 class Mon:
     """Pickle-spy bookkeeping: payloads the harness signed, per secret."""
 
     def __init__(self, ctx):
         self.ctx = ctx
-        self.spy = PickleSpy().install()
+        self.spy = PickleSpy.install_global()      # the name `pickle` inside ombott resolves to the patched module
         self.legit = set()
 
     def sign(self, name, value, secret, kind='Response'):
@@ -347,6 +352,7 @@ def run_unit(ctx, unit):
         tamper_unit(ctx, unit)
     elif k == 'tamper1':
         mon = Mon(ctx)
+        del mon.spy.loads_calls[:]
         print(f"  Cookie: {unit['header']!r} read with secret {unit['secret']!r}")
         try:
             back = new_request(unit['header']).get_cookie(unit['name'], default='<absent>', secret=unit['secret'])
